@@ -381,6 +381,17 @@ pub fn run(ctx: &Ctx, rep: &mut Report) {
         for _ in 0..28 {
             // ledger time moves on arbitrarily; the delay is 0 here (C09 owns the clock)
             u.set_time(u.time() + rng.below(3));
+            if rng.chance(1, 8) {
+                let d = rng.ledger_jump();
+                if u.advance(d) {
+                    rep.step(format!("ledger advances by {}", d));
+                    rep.count("advance-ledger");
+                    if let Some(dd) = g.check_lookups(&mut u) {
+                        rep.violation("lookups-changed-by-passing-time", dd);
+                        break;
+                    }
+                }
+            }
             let cclass = if rng.chance(1, 3) { "fresh" } else { *rng.pick(CAND) };
             let pclass = if rng.chance(1, 2) { "newest" } else { *rng.pick(PROOF) };
             let cand = match gen_candidate(&mut rng, &mut ring, &g.model, cclass) {
@@ -472,10 +483,11 @@ pub fn run(ctx: &Ctx, rep: &mut Report) {
     }
     let mut req: Vec<String> = CAND.iter().map(|c| format!("cand:{}", c)).collect();
     req.extend(PROOF.iter().map(|c| format!("proof:{}", c)));
+    req.push("advance-ledger".into());
     req.push("construct-none".into());
     req.push("construct-duplicate-inside".into());
     req.push("construct-malformed-inside".into());
     req.push("construct-three".into());
     rep.notes.insert("required".into(), json!(req));
-    rep.notes.insert("rule".into(), json!("3 of 4 universes: gateway (delay 0, retention in {0,1,3}, 1-3 initial sets) and 28 rotation attempts = candidate class (12: fresh, total exactly u128::MAX, earlier set with other nonce, empty, adjacent equal keys, descending pair, zero weight, total overflowing u128, threshold 0 / total+1, earlier set verbatim, all-zero first key) x proof class (9: newest, older retained with/without bypass, bypass without operator by the newest or an older retained set, unknown set, proof for another candidate, expired set with bypass, one signer short); after every attempt epoch(), signers_hash_by_epoch(0..=epoch+1) and epoch_by_signers_hash(every hash ever seen, including rejected candidates) are compared with the model. 1 of 4 universes: 6 constructor attempts through a factory (0/1/3 sets, duplicate or malformed member inside, same set with other nonce). distinct = (candidate class, proof class, expectation, outcome, epoch)"));
+    rep.notes.insert("rule".into(), json!("3 of 4 universes: gateway (delay 0, retention in {0,1,3}, 1-3 initial sets) and 28 rotation attempts, interleaved with ledger advancement of up to 1.3 M ledgers, = candidate class (12: fresh, total exactly u128::MAX, earlier set with other nonce, empty, adjacent equal keys, descending pair, zero weight, total overflowing u128, threshold 0 / total+1, earlier set verbatim, all-zero first key) x proof class (9: newest, older retained with/without bypass, bypass without operator by the newest or an older retained set, unknown set, proof for another candidate, expired set with bypass, one signer short); after every attempt epoch(), signers_hash_by_epoch(0..=epoch+1) and epoch_by_signers_hash(every hash ever seen, including rejected candidates) are compared with the model. 1 of 4 universes: 6 constructor attempts through a factory (0/1/3 sets, duplicate or malformed member inside, same set with other nonce). distinct = (candidate class, proof class, expectation, outcome, epoch)"));
 }
